@@ -666,6 +666,13 @@ def corpus():
     P.append([("agg", "groupBy", [KA], nsb), ("count", [(C("sb"), "sb", "name")])])
     P.append([("agg", "dfagg", [], nsb), ("agg", "dfagg", [], [(A("max", C("n")), "m")])])
     P.append([("count", [KA]), ("short", [], "sum", ["count"], True)])
+    # columns named fn(col) by a shortcut / dict call, referred to by that name afterwards
+    P.append([("short", [KA], "sum", ["b"], True), OP("where", ("bin", "Gt", C("sum(b)"), ("lit", 2)))])
+    P.append([("short", [KA], "max", ["b"], True), OP("select", [(C("max(b)"), "max(b)")])])
+    P.append([("dict", "groupBy", [KA], [("b", "sum")]), OP("orderBy", [(C("sum(b)"), False, None), (C("a"), False, None)])])
+    P.append([("short", [KA], "avg", ["b"], True), OP("drop", ["avg(b)"])])
+    P.append([("short", [KA], "sum", ["b"], True), ("agg", "dfagg", [], [(A("max", C("sum(b)")), "m")])])
+    P.append([("short", [KA], "min", ["b"], True), OP("rename", "min(b)", "lo")])
     P.append([("agg", "groupBy", [KA], sb), ("join", "a")])
     P.append([W_POS, ("count", [KS]), ("join", "s")])
     return P
@@ -756,9 +763,9 @@ def signature(steps, flags):
             return "C06/unaliased-key-expression"
         if inner[0] == "dict" and inner[1] == "dfagg":
             return "C06/DataFrame.agg-dict-raises" if flags.get("raised") else "C06/DataFrame.agg-dict-differs"
-        if inner[0] == "dict" and any(f == "mean" for _, f in inner[3]):
+        if inner[0] == "dict" and any(f == "mean" for _, f in inner[3]) and flags.get("impl_is_model"):
             return "C06/dict-form-name:mean"
-        if inner[0] == "dict" and any(c == "*" for c, _ in inner[3]):
+        if inner[0] == "dict" and any(c == "*" for c, _ in inner[3]) and flags.get("impl_is_model"):
             return "C06/dict-form-name:count-star"
         if inner[0] == "short" and not inner[4]:
             return "C06/shortcut-without-columns-raises" if flags.get("raised") else "C06/shortcut-without-columns-differs"
@@ -769,7 +776,7 @@ def signature(steps, flags):
         seen_call = seen_call or s[0] != "op"
     if flags.get("raised"):
         return "C06/raises:" + flags.get("exc", "?")
-    if flags.get("cube_on_empty"):
+    if flags.get("cube_on_empty") and flags.get("impl_is_model"):   # exactly what C06_refuted_cube_empty predicts
         return "C06/cube-on-empty-input-grand-total-row"
     kinds = [s[0] if s[0] != "op" else s[1][0] for s in steps]
     return ("C06/names-differ:" if flags.get("names") else "C06/rows-differ:") + ">".join(kinds[-3:])
@@ -924,7 +931,7 @@ def run(ctx: core.Ctx):
                 "got": None if m["impl"] is None else {"columns": m["impl"][0], "rows": m["impl"][1][:40]},
                 "steps_json": m["steps"], "coq_case": it}
         if raised or not isp:
-            flags = {"raised": raised, "exc": (m["exc"] or "?").split(":")[0], "cube_on_empty": m["cube_on_empty"]}
+            flags = {"raised": raised, "exc": (m["exc"] or "?").split(":")[0], "cube_on_empty": m["cube_on_empty"], "impl_is_model": im}
             sig = signature(m["steps"], flags)
             ctx.deviation(sig, f"raises {m['exc']}" if raised else "df.columns / collect() differ from PySpark's meaning", desc)
         elif not im:
